@@ -53,10 +53,11 @@ FID = "FreqResponseTruncates"
 
 
 def model(configs=(), mapffts=(), paramffts=(), lenmode="two", patmode="dense", ndense=1, laymode="three",
-          block=False, seed=0, dev=(), emit=True, histvalid=(), histbad=(), histmax=0):
+          block=False, seed=0, dev=(), emit=True, histvalid=(), histbad=(), histmax=0, histfirst=None):
     d = {k: (k in dev) for k in DEVS}
     st = lambda xs: tlc.tla(set(xs)) if xs else "{}"
     defs = {"Configs": st([tuple(c) for c in configs]), "MapFfts": st(mapffts), "ParamFfts": st(paramffts),
+            "HistFirst": st([tuple(c) for c in (histvalid if histfirst is None else histfirst)]),
             "HistValid": st([tuple(c) for c in histvalid]), "HistBad": st([tuple(c) for c in histbad]), "Dev": tlc.tla(d)}
     cfg = tlc.cfg_text(constants={"LenMode": tlc.tla(lenmode), "PatMode": tlc.tla(patmode), "NDense": str(ndense),
                                   "LayMode": tlc.tla(laymode), "Block": tlc.tla(bool(block)), "Seed": str(seed % 1000),
@@ -588,6 +589,15 @@ def plan(tier, seed):
         np2t = np2 + configs_of([12]) + configs_of([10, 15, 24], cps=lambda N: [0, 1, N // 2, N],
                                                     us=lambda N: [2, N // 2 // 2 * 2, N - N % 2])
         add("non-pow2", sorted(set(np2t)), 3, 1e3, lenmode="three", patmode="dense", ndense=2, laymode="three", block=True)
+        # ONE live object: every pair of calls over all 49 configurations of fft <= 8 (+ 8 rejected parameter sets), and every
+        # history of 4 calls over the quick alphabet; full chain after every call
+        bad8 = HIST_BAD + [(4, 1, 5), (8, 0, 10), (4, -1, 2), (2, 0, 1)]
+        for i, first in enumerate(split(pow2, 5)):
+            jobs.append({"label": f"history2/{i}", "w": 1e10, "model": dict(
+                histfirst=first, histvalid=pow2, histbad=bad8, histmax=2, seed=seed, lenmode="isi", patmode="dense", ndense=1, laymode="one")})
+        for i, c in enumerate(HIST_VALID):
+            jobs.append({"label": f"history4/{i}", "w": 1e10, "model": dict(
+                histfirst=[c], histvalid=HIST_VALID, histbad=HIST_BAD, histmax=4, seed=seed, lenmode="isi", patmode="dense", ndense=1, laymode="none")})
     jobs.sort(key=lambda j: -j["w"])
     return jobs
 
